@@ -3,7 +3,7 @@ import GeffModel.Ctc
 open Lean Geff Geff.Proto Geff.Ctc
 
 /-! request: {"ndim":2|3, "frames":[[{"l":label,"c":[tok,…]},…],…], "table":[[L,B,E,P],…]}
-answer : {"ok":{"ids":[…],"tracklet":[…],"t":[…],"coords":[[name,[tok,…]],…],"edges":[[a,b],…],
+answer : {"consistent":bool (the Bool decider of the theorems' consistency hypothesis), "ok":{"ids":[…],"tracklet":[…],"t":[…],"coords":[[name,[tok,…]],…],"edges":[[a,b],…],
                 "axes":[[name,type],…]}}  or  {"exc":"ValueError"|"KeyError"|"IndexError"} -/
 
 def getRegion (j : Json) : Except String Region := do
@@ -25,9 +25,10 @@ def handle (j : Json) : Except String Json := do
   let frames ← (← (← j.getObjVal? "frames").getArr?).toList.mapM
     (fun fr => do (← fr.getArr?).toList.mapM getRegion)
   let table ← (← (← j.getObjVal? "table").getArr?).toList.mapM getRow
+  let cons := Json.bool (consistentB ⟨ndim, frames, table⟩)
   match fromCtc ⟨ndim, frames, table⟩ with
   | .ok o =>
-    return Json.mkObj [("ok", Json.mkObj [
+    return Json.mkObj [("consistent", cons), ("ok", Json.mkObj [
       ("ids", Json.arr (o.nodeIds.map natJson).toArray),
       ("tracklet", Json.arr (o.tracklet.map intJson).toArray),
       ("t", Json.arr (o.ts.map natJson).toArray),
@@ -35,8 +36,8 @@ def handle (j : Json) : Except String Json := do
           Json.arr #[Json.str c.1, Json.arr (c.2.map Json.str).toArray])).toArray),
       ("edges", Json.arr (o.edges.map (fun e => Json.arr #[natJson e.1, natJson e.2])).toArray),
       ("axes", Json.arr (o.axes.map (fun a => Json.arr #[Json.str a.1, Json.str a.2])).toArray)])]
-  | .valueError => return Json.mkObj [("exc", "ValueError")]
-  | .keyError => return Json.mkObj [("exc", "KeyError")]
-  | .indexError => return Json.mkObj [("exc", "IndexError")]
+  | .valueError => return Json.mkObj [("consistent", cons), ("exc", "ValueError")]
+  | .keyError => return Json.mkObj [("consistent", cons), ("exc", "KeyError")]
+  | .indexError => return Json.mkObj [("consistent", cons), ("exc", "IndexError")]
 
 def main : IO Unit := Proto.run handle
